@@ -245,6 +245,7 @@ class PathProv(P.Prov):
     def __init__(self, fn, path):
         super().__init__(fn)
         on_path = set(path.blocks)
+        self.on_path = on_path
         newdefs = {}
         for l, ds in self.defs.items():
             here = [d for d in ds if d[0] in on_path]
